@@ -478,9 +478,13 @@ impl<'a> Gen<'a> {
                     }
                     2 | 3 => {
                         let k = self.bucket_name_for(&root, Some(true));
-                        let how = pick_how(self.rng, &k.bytes());
+                        let mut how = pick_how(self.rng, &k.bytes());
                         if work.get_bucket(&k.bytes()).is_ok() {
                             hs.push(vec![k.bytes()]);
+                            // a third of the handles to existing buckets come out of the listing
+                            if self.rng.chance(1, 3) {
+                                how = How::Listed;
+                            }
                         } else {
                             hs.push_dead();
                         }
@@ -566,7 +570,11 @@ impl<'a> Gen<'a> {
                             wb.get_or_create_bucket(&kb).is_ok(),
                             Op::GetOrCreate { h, k, how },
                         ),
-                        _ => (wb.get_bucket(&kb).is_ok(), Op::GetB { h, k, how }),
+                        _ => {
+                            let ok = wb.get_bucket(&kb).is_ok();
+                            let how = if ok && self.rng.chance(1, 3) { How::Listed } else { how };
+                            (ok, Op::GetB { h, k, how })
+                        }
                     };
                     if ok {
                         let mut p = path.clone();
